@@ -87,6 +87,8 @@ def get_cider_exponent(
     tau_fac = tau_mul * 1.2 * (6 * np.pi**2) ** (2.0 / 3) / np.pi
     cond = rho < rhocut
     rho = rho.copy()
+    sigma = sigma.copy()
+    tau = tau.copy()
     rho[cond] = rhocut
     sigma[cond] = 0
     tau[cond] = 0
@@ -131,6 +133,7 @@ def get_cider_exponent_gga(rho, sigma, a0=1.0, grad_mul=0.03125, rhocut=1e-10, n
         sigma = np.asarray([sigma], dtype=np.float64)
     cond = rho < rhocut
     rho = rho.copy()
+    sigma = sigma.copy()
     rho[cond] = rhocut
     sigma[cond] = 0
     if nspin == 1:
